@@ -39,13 +39,21 @@ M_Specs ==
       [] Scenario = "sts-two"       -> ("s-0" :> Sp("sts", "s", "", 0, <<>>)) @@ ("s-1" :> Sp("sts", "s", "", 0, <<>>))
       [] Scenario = "dp-immutable"  -> ("d-a" :> Sp("dp", "d", "", 1, <<>>)) @@ ("d-b" :> Sp("dp", "d", "", 1, <<>>))
       [] Scenario = "dp-pool"       -> ("d-a" :> Sp("dp", "d", "pl", 2, <<>>)) @@ ("e-a" :> Sp("dp", "e", "pl", 2, <<>>))
+      \* C06: an immutable pod (holder when rescheduled), a default one, and a two-range pod, on a topology with a pool
+      \* routable from two node subnets, a pool routable from one, and a node in no pool's subnet
+      [] Scenario = "topo"          -> ("s-0" :> Sp("sts", "s", "", 1, <<>>)) @@ ("s-1" :> Sp("sts", "s", "", 0, <<>>))
+      [] Scenario = "topo-ranges"   -> ("m-0" :> Sp("sts", "m", "", 1, << {"ip1"}, {"ip2", "ip3"} >>)) @@ ("s-1" :> Sp("sts", "s", "", 0, <<>>))
       [] OTHER                      -> [x \in {"s-0"} |-> Sp("sts", "s", "", 0, <<>>)]
-M_NodeSub == ("n1" :> "s1") @@ ("n2" :> "s1")
+Topo == Scenario \in {"topo", "topo-ranges"}
+M_NodeSub == IF Topo THEN ("n1" :> "s1") @@ ("n2" :> "s2") @@ ("n3" :> "") ELSE ("n1" :> "s1") @@ ("n2" :> "s1")
 M_Configs ==
     CASE Scenario = "dp-immutable" -> << [p1 |-> [subnets |-> {"s1"}, ips |-> {"ip1", "ip2", "ip3"}]] >>
+      [] Scenario = "topo" -> << [p1 |-> [subnets |-> {"s1", "s2"}, ips |-> {"ip1"}], p2 |-> [subnets |-> {"s2"}, ips |-> {"ip2"}]] >>
+      [] Scenario = "topo-ranges" -> << [p1 |-> [subnets |-> {"s1", "s2"}, ips |-> {"ip1"}], p2 |-> [subnets |-> {"s2"}, ips |-> {"ip2"}],
+                                          p3 |-> [subnets |-> {"s1"}, ips |-> {"ip3"}]] >>
       [] OTHER -> << [p1 |-> [subnets |-> {"s1"}, ips |-> {"ip1", "ip2"}]] >>
 M_CloudOn == Scenario \in {"sts-cloud"}
-M_Sts == IF Scenario \in {"dp-immutable", "dp-pool"} THEN Emp ELSE ("s" :> 2)
+M_Sts == IF Scenario \in {"dp-immutable", "dp-pool"} THEN Emp ELSE IF Scenario = "topo-ranges" THEN ("s" :> 2) @@ ("m" :> 1) ELSE ("s" :> 2)
 M_Dp == IF Scenario = "dp-immutable" THEN ("d" :> 1) ELSE IF Scenario = "dp-pool" THEN ("d" :> 1) @@ ("e" :> 1) ELSE Emp
 M_Pool == IF Scenario = "dp-pool" THEN ("pl" :> [size |-> 1, prealloc |-> FALSE]) ELSE Emp
 
@@ -56,10 +64,21 @@ Init ==
     /\ sts = M_Sts /\ dp = M_Dp /\ poolobj = M_Pool /\ cm = 1 /\ cloud = Emp
     /\ ops = Emp /\ podlock = Emp /\ dplock = Emp /\ nscache = Emp /\ fev = <<>> /\ alive = TRUE /\ loaded = 1
     /\ filtered = Emp
-    /\ ctr = [uid |-> 1, op |-> 1, inc |-> Emp, faults |-> 0, env |-> 0]
+    /\ ctr = [uid |-> 1, op |-> 1, inc |-> Emp, faults |-> 0, env |-> 0, fb |-> ""]
     /\ hist = <<>>
 
-Do(w, h) == SetWorld(w) /\ hist' = Append(hist, h) /\ UNCHANGED cfgVars
+\* ctr.fb (topology scenarios only): the pod whose filter has just completed successfully with the informer caught up, and
+\* since then nothing has happened but the start and the fault-free segments of its bind -- C06's "nothing else changes"
+FbNext(w, h) ==
+    IF ~Topo THEN ""
+    ELSE IF h.a = "Step" /\ h.op \in DOMAIN ops /\ ops[h.op].type = "filter" /\ h.op \notin DOMAIN w.ops
+      THEN LET pn == ops[h.op].loc.podname IN
+           IF pn \in DOMAIN w.filtered /\ w.filtered[pn].uid = ops[h.op].uid /\ pn \in DOMAIN pods /\ pn \in DOMAIN lpods /\ lpods[pn] = pods[pn]
+             THEN pn ELSE ""
+    ELSE IF h.a = "StartBind" /\ h.pod = ctr.fb THEN ctr.fb
+    ELSE IF h.a = "Step" /\ h.f = 0 /\ h.op \in DOMAIN ops /\ ops[h.op].type = "bind" /\ ops[h.op].loc.podname = ctr.fb THEN ctr.fb
+    ELSE ""
+Do(w, h) == SetWorld([w EXCEPT !.ctr.fb = FbNext(w, h)]) /\ hist' = Append(hist, h) /\ UNCHANGED cfgVars
 LiveOps(type, pod) == {id \in DOMAIN ops : ops[id].type = type /\ (pod = "" \/ ops[id].loc.podname = pod)}
 CanStart(type) == alive /\ type \in OpsOn /\ Cardinality(DOMAIN ops) < MaxLive /\ ctr.op <= MaxOps
 
@@ -127,6 +146,8 @@ MemStoreAgreeM == alive => MemStoreAgreeExcept(mem, store, {})
 PoolCapM == alive => \A pl \in DOMAIN poolobj : Cardinality({ip \in DOMAIN mem : mem[ip].key.pool = pl}) <= poolobj[pl].size
 \* C10
 LiveAssignedToOwnNode == (CloudOn /\ alive) => \A p \in LiveBoundM : \A ip \in ToSetM(pods[p].ann) : ip \in DOMAIN cloud /\ cloud[ip] = pods[p].node
+\* C06: what a live pod was bound with is routable from its node (the configuration does not change in these models)
+RoutableM == \A p \in LiveBoundM : \A ip \in ToSetM(pods[p].ann) : ip \in ConfIPs(pools) /\ NodeSub[pods[p].node] \in SubnetsOf(pools, ip)
 (* ------------------------------------------------------------------ properties of steps (action form) *)
 Common == (DOMAIN mem) \cap (DOMAIN mem')
 FreedM == {ip \in Common : ~IsFree(mem[ip]) /\ IsFree(mem'[ip])}
@@ -155,6 +176,23 @@ UnassignBeforeHandoverM == [][CloudOn => \A ip \in FreedM \cup RekeyedM : ip \no
 NoUnassignWhileLiveM ==
     [][\A ip \in DOMAIN cloud : ip \notin DOMAIN cloud' =>
           ~\E p \in LiveBoundM : ip \in ToSetM(pods[p].ann) /\ ip \in DOMAIN mem /\ mem[ip].key = KeyOf(pods[p])]_mcvars
+
+\* C06 (operations one at a time, MaxLive = 1): a completed filter offers a pod that holds IPs only nodes from which they are
+\* routable, and a fresh default-policy pod exactly the nodes that have a free routable IP
+FilterOffersM ==
+    [][\A n \in DOMAIN filtered' :
+          ((n \notin DOMAIN filtered \/ filtered'[n] # filtered[n]) /\ n \in DOMAIN pods /\ filtered'[n].uid = pods[n].uid) =>
+            LET p == pods[n]  held == KeyIPs(mem, KeyOf(p))  N == filtered'[n].nodes IN
+            /\ \A x \in N : \A ip \in held : NodeSub[x] \in SubnetsOf(pools, ip)
+            /\ (held = {} /\ p.policy = 0 /\ p.pool = "" /\ Len(p.ranges) = 0) =>
+                  N = {x \in Nodes : \E ip \in ConfIPs(pools) : IsFree(mem[ip]) /\ NodeSub[x] \in SubnetsOf(pools, ip)}]_mcvars
+\* C06: filter offered the node, nothing else changed, no fault: the bind succeeds, or refuses because an earlier
+\* same-named pod still holds the IP
+FilterImpliesBindM ==
+    [][(ctr.fb # "" /\ Actor # 0 /\ Actor \in DOMAIN ops /\ ops[Actor].type = "bind" /\ ops[Actor].loc.podname = ctr.fb /\
+        Actor \notin DOMAIN ops' /\ hist'[Len(hist')].f = 0) =>
+          \/ ctr.fb \in DOMAIN pods' /\ pods'[ctr.fb].node # ""
+          \/ \E ip \in KeyIPs(mem, KeyOf(pods[ctr.fb])) : mem[ip].uid # "" /\ mem[ip].uid # pods[ctr.fb].uid]_mcvars
 
 MC_IPSeq == <<"ip1", "ip2", "ip3">>
 TsVals == {mem[ip].ts : ip \in DOMAIN mem}
